@@ -90,12 +90,59 @@ func genC20(r *Rand, tier string, i int) *h.Scenario {
 	}
 	// one client drives all bars with samples of every kind and long sleeps
 	cur := make([]int64, nb)
+	tots := make([]int64, nb)
+	dyn := make([]bool, nb)
+	for b := range tots {
+		tots[b] = sc.Bars[b].Total
+		if r.Bool(0.25) {
+			// a stream of unknown size: the bar is created without a total and learns it later
+			dyn[b] = true
+			sc.Bars[b].Total = 0
+			ops = append(ops, h.Op{K: h.OpSetTotal, Bar: b, N: tots[b]})
+		}
+	}
 	var spent int64
 	for k, n := 0, r.Range(4, 16); k < n; k++ {
 		b := r.Intn(nb)
-		tot := sc.Bars[b].Total
+		tot := tots[b]
 		room := tot - cur[b] - 1
-		switch r.Weighted(6, 2, 3, 2) {
+		hasMedian := false
+		for _, l := range [][]h.DecSpec{sc.Bars[b].Pre, sc.Bars[b].App} {
+			for _, d := range l {
+				hasMedian = hasMedian || d.Age == 1
+			}
+		}
+		switch r.Weighted(6, 2, 3, 2, 2, 1) {
+		case 5:
+			// the total turns out to be different (never below what has been transferred)
+			nt := cur[b] + 1 + r.Int63n(tot)
+			if dyn[b] && (!hasMedian || nt <= 1000) {
+				ops = append(ops, h.Op{K: h.OpSetTotal, Bar: b, N: nt})
+				tots[b] = nt
+			}
+		case 4:
+			// a transfer through the bar's proxy: stalled calls (no bytes, but time) and data calls
+			if room > 4 && !hasMedian {
+				sp := &h.StreamSpec{Writer: r.Bool(0.4), HasClose: r.Bool(0.5), DoClose: r.Bool(0.5), Seed: r.Next()}
+				sp.Len = int(min64(room, int64(r.Range(1, 24))))
+				for k, n := 0, r.Range(1, 4); k < n; k++ {
+					sp.Chunks = append(sp.Chunks, []int{0, 0, 1, 3, 8}[r.Intn(5)])
+				}
+				if sp.Writer {
+					sp.Chunks = nil // a short write ends the copy loop
+					if r.Bool(0.3) {
+						sp.Chunks = []int{100, 100, 0}
+					}
+				} else {
+					sp.Chunks = append(sp.Chunks, r.Range(1, 9))
+				}
+				for k, n := 0, r.Range(1, 3); k < n; k++ {
+					sp.Latency = append(sp.Latency, []int64{0, 1e3, period / 2, 2 * period}[r.Intn(4)])
+				}
+				sp.BufSizes = []int{r.Range(1, 16)}
+				ops = append(ops, h.Op{K: h.OpProxy, Bar: b, Stream: sp})
+				cur[b] += int64(sp.Len) // at most (a short write stops earlier; cur is only used as a bound)
+			}
 		case 0:
 			nn := int64(0)
 			switch r.Intn(5) {
@@ -145,7 +192,19 @@ func genC20(r *Rand, tier string, i int) *h.Scenario {
 		if r.Bool(0.25) {
 			ops = append(ops, h.Op{K: h.OpAbort, Bar: b})
 		} else {
-			ops = append(ops, h.Op{K: h.OpEwmaIncr, Bar: b, N: sc.Bars[b].Total - cur[b], D: 1e6})
+			// (a transfer through a proxy may have moved fewer bytes than planned: set, do not add)
+			if dyn[b] && r.Bool(0.6) {
+				// "that was all": the total becomes what has been transferred
+				ops = append(ops, h.Op{K: h.OpSleep, D: 2 * period})
+				if c.Refresh == h.RefManual {
+					ops = append(ops, h.Op{K: h.OpRefresh})
+				}
+				ops = append(ops, h.Op{K: h.OpSetTotal, Bar: b, N: -1, Flag: true})
+			} else if dyn[b] {
+				ops = append(ops, h.Op{K: h.OpEwmaSetCurrent, Bar: b, N: tots[b], D: 1e6}, h.Op{K: h.OpEnableTrigger, Bar: b})
+			} else {
+				ops = append(ops, h.Op{K: h.OpEwmaSetCurrent, Bar: b, N: tots[b], D: 1e6})
+			}
 		}
 		// keep rendering a little after completion: frozen texts
 		ops = append(ops, h.Op{K: h.OpSleep, D: 2 * period})
@@ -157,6 +216,57 @@ func genC20(r *Rand, tier string, i int) *h.Scenario {
 	p := DefaultProfile("C20")
 	sc.Sched = genSched(r, &p)
 	return sc
+}
+
+// c20Sample is one (bytes, duration) pair handed to a bar's moving-average decorators.
+type c20Sample struct {
+	n, dur   int64
+	slack    int64 // the proxies measure the duration themselves: a few clock reads more than the call took
+	inv, ret int
+}
+
+// c20Samples lists the samples bar b's moving-average decorators must have received, in order,
+// up to the operation that finished the bar.
+func c20Samples(hi *Hist, b int) []c20Sample {
+	var out []c20Sample
+	m := NewRefBar(hi.Sc.Bars[b].Total)
+	for _, op := range hi.Ops {
+		if op.Op.Bar != b || op.Ret < 0 || m.Terminal() {
+			continue
+		}
+		if op.Op.K == h.OpProxy {
+			for i := op.Inv; i < op.Ret; i++ {
+				e := &hi.Log[i]
+				if e.Kind != h.EvStream {
+					continue
+				}
+				rec := e.V.(h.StreamRec)
+				if rec.Side != "stub" || (rec.Call != "Read" && rec.Call != "Write") || m.Terminal() {
+					continue
+				}
+				out = append(out, c20Sample{rec.N, rec.Dur, 16, op.Inv, op.Ret})
+				m.Apply(h.Op{K: h.OpIncr, N: rec.N})
+			}
+			continue
+		}
+		if !IsMutator(op.Op.K) {
+			continue
+		}
+		switch op.Op.K {
+		case h.OpEwmaIncr:
+			out = append(out, c20Sample{op.Op.N, op.Op.D, 0, op.Inv, op.Ret})
+		case h.OpEwmaIncrBy:
+			out = append(out, c20Sample{int64(int(op.Op.N)), op.Op.D, 0, op.Inv, op.Ret})
+		case h.OpEwmaIncrement:
+			out = append(out, c20Sample{1, op.Op.D, 0, op.Inv, op.Ret})
+		case h.OpEwmaSetCurrent:
+			if op.Op.N >= 0 {
+				out = append(out, c20Sample{op.Op.N - m.Current, op.Op.D, 0, op.Inv, op.Ret})
+			}
+		}
+		m.Apply(op.Op)
+	}
+	return out
 }
 
 var markRe = regexp.MustCompile(`\{([pa])(\d+)\.(\d+)=([^}]*)\}`)
@@ -254,34 +364,14 @@ func judgeC20(hi *Hist) []*Violation {
 		if hi.Added[b] == nil {
 			continue
 		}
-		m := NewRefBar(hi.Sc.Bars[b].Total)
 		var carry int64
-		for _, op := range hi.Ops {
-			if op.Op.Bar != b || !IsMutator(op.Op.K) || op.Ret < 0 || m.Terminal() {
-				continue
+		for _, sm := range c20Samples(hi, b) {
+			if sm.n <= 0 {
+				carry += sm.dur
+			} else {
+				foldOf[b] = append(foldOf[b], addAt{float64(carry+sm.dur) / float64(sm.n), sm.inv, sm.ret})
+				carry = 0
 			}
-			n, has := int64(0), false
-			switch op.Op.K {
-			case h.OpEwmaIncr:
-				n, has = op.Op.N, true
-			case h.OpEwmaIncrBy:
-				n, has = int64(int(op.Op.N)), true
-			case h.OpEwmaIncrement:
-				n, has = 1, true
-			case h.OpEwmaSetCurrent:
-				if op.Op.N >= 0 {
-					n, has = op.Op.N-m.Current, true
-				}
-			}
-			if has {
-				if n <= 0 {
-					carry += op.Op.D
-				} else {
-					foldOf[b] = append(foldOf[b], addAt{float64(carry+op.Op.D) / float64(n), op.Inv, op.Ret})
-					carry = 0
-				}
-			}
-			m.Apply(op.Op)
 		}
 	}
 	spyAt := func(fi int, bar int) int {
@@ -455,23 +545,7 @@ func judgeC20(hi *Hist) []*Violation {
 						add("median-eta", "frame %d: bar %d shows moving-average ETA %q; (total-current) x median of the last three samples prints %v (style %d)", fi, g.Bar, txt, tried, spec.Style%4)
 					}
 				case h.DecPercentage:
-					if spy.Total <= 0 || spy.Current < 0 || spy.Current > spy.Total {
-						break
-					}
-					num := strings.TrimSpace(strings.TrimSuffix(strings.TrimSpace(txt), "%"))
-					val, gran, _, ok := readSize(num)
-					if !ok || !strings.HasSuffix(txt, "%") {
-						add("percentage-unreadable", "frame %d: percentage of bar %d prints %q", fi, g.Bar, txt)
-						break
-					}
-					note("c20_percentage_checked")
-					want := 100 * float64(spy.Current) / float64(spy.Total)
-					if gran < 0.5 && strings.IndexAny(num, ".e") < 0 {
-						gran = 1 // integer verbs truncate
-					}
-					if math.Abs(val-want) > gran+1e-9*want+1e-12 && !(strings.IndexAny(num, ".e") < 0 && val <= want && want-val < 1) {
-						add("percentage-value", "frame %d: bar %d shows %q for %d of %d (= %.6f%%)", fi, g.Bar, txt, spy.Current, spy.Total, want)
-					}
+					checkPercentage(fi, g.Bar, txt, spy, add)
 				case h.DecCounters, h.DecTotal, h.DecCurrent:
 					checkSizes(fi, g.Bar, spec, txt, spy, add)
 				}
@@ -483,47 +557,24 @@ func judgeC20(hi *Hist) []*Violation {
 		if hi.Added[b] == nil {
 			continue
 		}
-		type sample struct {
-			n   int64
-			dur int64
-		}
-		var samples []sample
-		m := NewRefBar(hi.Sc.Bars[b].Total)
-		for _, op := range hi.Ops {
-			if op.Op.Bar != b || !IsMutator(op.Op.K) || op.Ret < 0 {
+		samples := c20Samples(hi, b)
+		var want, wantHi []float64
+		var carry, carryHi int64
+		for _, sm := range samples {
+			if sm.n <= 0 {
+				carry += sm.dur
+				carryHi += sm.dur + sm.slack
 				continue
 			}
-			if m.Terminal() {
-				break
-			}
-			switch op.Op.K {
-			case h.OpEwmaIncr:
-				samples = append(samples, sample{op.Op.N, op.Op.D})
-			case h.OpEwmaIncrBy:
-				samples = append(samples, sample{int64(int(op.Op.N)), op.Op.D})
-			case h.OpEwmaIncrement:
-				samples = append(samples, sample{1, op.Op.D})
-			case h.OpEwmaSetCurrent:
-				if op.Op.N >= 0 {
-					samples = append(samples, sample{op.Op.N - m.Current, op.Op.D})
-				}
-			}
-			m.Apply(op.Op)
-		}
-		var want []float64
-		var carry int64
-		for _, s := range samples {
-			if s.n <= 0 {
-				carry += s.dur
-				continue
-			}
-			q := float64(carry+s.dur) / float64(s.n)
+			q := float64(carry+sm.dur) / float64(sm.n)
 			if math.IsInf(q, 0) || math.IsNaN(q) {
-				carry += s.dur
+				carry += sm.dur
+				carryHi += sm.dur + sm.slack
 				continue
 			}
-			carry = 0
 			want = append(want, q)
+			wantHi = append(wantHi, float64(carryHi+sm.dur+sm.slack)/float64(sm.n))
+			carry, carryHi = 0, 0
 		}
 		for side, list := range [][]h.DecSpec{hi.Sc.Bars[b].Pre, hi.Sc.Bars[b].App} {
 			for ord, d := range list {
@@ -546,7 +597,7 @@ func judgeC20(hi *Hist) []*Violation {
 					continue
 				}
 				for i := range got {
-					if got[i] != want[i] {
+					if got[i] < want[i] || got[i] > wantHi[i] {
 						add("fold-value", "bar %d: moving-average decorator %d/%d: value %d added to the average is %g, the reference fold over %v gives %g", b, side, ord, i, got[i], samples, want[i])
 						break
 					}
@@ -563,6 +614,27 @@ func decName(k int) string {
 }
 
 // checkSizes parses size / counter texts back and compares with the spy's statistics.
+// checkPercentage: the printed percentage reads back to 100*current/total within the printed precision.
+func checkPercentage(fi, bar int, txt string, spy h.SpyRec, add func(o, f string, a ...interface{})) {
+	if spy.Total <= 0 || spy.Current < 0 || spy.Current > spy.Total {
+		return
+	}
+	num := strings.TrimSpace(strings.TrimSuffix(strings.TrimSpace(txt), "%"))
+	val, gran, _, ok := readSize(num)
+	if !ok || !strings.HasSuffix(txt, "%") {
+		add("percentage-unreadable", "frame %d: percentage of bar %d prints %q", fi, bar, txt)
+		return
+	}
+	note("c20_percentage_checked")
+	want := 100 * float64(spy.Current) / float64(spy.Total)
+	if gran < 0.5 && strings.IndexAny(num, ".e") < 0 {
+		gran = 1 // integer verbs truncate
+	}
+	if math.Abs(val-want) > gran+1e-9*want+1e-12 && !(strings.IndexAny(num, ".e") < 0 && val <= want && want-val < 1) {
+		add("percentage-value", "frame %d: bar %d shows %q for %d of %d (= %.6f%%)", fi, bar, txt, spy.Current, spy.Total, want)
+	}
+}
+
 func checkSizes(fi, bar int, spec *h.DecSpec, txt string, spy h.SpyRec, add func(o, f string, a ...interface{})) {
 	var parts []string
 	var wants []int64
